@@ -31,7 +31,7 @@ def norm_index(i, n):
 
 
 def list_model(lst, op, a):
-    m = list(lst)
+    m = [x for x in lst]
     if op == "with":
         m.append(a["v"])
     elif op == "with_index":
@@ -81,7 +81,7 @@ def make_list_step(fam, attr, sing, op, nmax, elem="int"):
                 for t in range(nmax):
                     assume(0 <= e[t] <= 2)
                 pre = [pick(["", "a", "b"], e[t]) for t in range(n)]
-            o = NS.K2(**{attr: list(pre)})
+            o = NS.K2(**{attr: [x for x in pre]})
         others = {x: getattr(o, x) for x in ("y", "nums", "tags", "opts") if x != attr}
         a = {}
         kw = {}
@@ -187,12 +187,12 @@ def make_dict_step(fam, attr, sing, op, nmax):
             pre = {}
         else:
             pre = {DKEYS[t]: e[t] for t in range(n)}
-            o = NS.K2(**{attr: dict(pre)})
+            o = NS.K2(**{attr: {kk: vv for kk, vv in pre.items()}})
         others = {x: getattr(o, x) for x in ("y", "nums", "tags", "opts") if x != attr}
         assume(0 <= k <= n)  # existing keys + one fresh
         key = pick(DKEYS, k) if n + 1 >= len(DKEYS) else pick(DKEYS[: n + 1], k)
         kw = {"_inplace": True} if inplace else {}
-        m = dict(pre)
+        m = {kk: vv for kk, vv in pre.items()}  # (not dict(pre): CrossHair's dict() builds its own map type)
         miss = False
         if op == "with":
             m[key] = v
@@ -257,11 +257,11 @@ def make_set_step(fam, attr, sing, op, nmax):
             o = NS.K2()
             pre = set()
         else:
-            pre = set(e[t] for t in range(n))
-            o = NS.K2(**{attr: set(pre)})
+            pre = {e[t] for t in range(n)}
+            o = NS.K2(**{attr: {x for x in pre}})
         assume(0 <= x <= 3)
         kw = {"_inplace": True} if inplace else {}
-        m = set(pre)
+        m = {x for x in pre}
         miss = False
         if op == "with":
             m.add(x)
@@ -333,17 +333,17 @@ def make_spec_step(fam, attr, op, nmax):
             elif op == "update_kw":  # keywords update the addressed element
                 assume(0 <= i < n)
                 r = o.update_kid(i, a=v, **kw)
-                want = list(pre)
+                want = [x for x in pre]
                 want[i] = v
             elif op == "transform_kw":
                 assume(0 <= i < n)
                 r = o.transform_kid(i, a=lambda t: t + v, **kw)
-                want = list(pre)
+                want = [x for x in pre]
                 want[i] = want[i] + v
             else:
                 assume(-n <= i < n)
                 r = o.without_kid(i, **kw)
-                want = list(pre)
+                want = [x for x in pre]
                 del want[i]
             got = [x.a for x in r.kids]
             check(len(got) == len(want) and all(x is y or x == y for x, y in zip(got, want)), "keywords build or update the element; others untouched", f"{tag}/content", lambda: f"{got!r} vs {want!r}")
@@ -354,7 +354,7 @@ def make_spec_step(fam, attr, op, nmax):
             o = NS.K3(inner=NS.Inner(), by_name={kk: NS.Inner(a=x) for kk, x in pre.items()})
             assume(0 <= k <= n)
             key = pick(KEYS[: n + 1], k)
-            m = dict(pre)
+            m = {kk: vv for kk, vv in pre.items()}
             miss = False
             if op == "with_kw":
                 r_call = lambda: o.with_by_name_item(key, a=v, **kw)
@@ -395,7 +395,7 @@ def make_spec_step(fam, attr, op, nmax):
         sing = {"items": "item", "bag": "bag_item", "lst": "lst_item"}[attr]
         assume(0 <= k <= n)
         key = pick(KEYS[: n + 1], k)
-        m = list(pre)
+        m = [x for x in pre]
         idx = None
         for t, (kk, _) in enumerate(m):
             if kk == key:
